@@ -1267,3 +1267,5 @@ def into_via_from(eng, c, a, g):
     if not m: raise Unsupported('Into::into shape: ' + c)
     return eng.dispatch(f'<{m.group(2)} as From<{m.group(1)}>>::from', a, g, None)
 MODELS_NORM = MODELS_NORM + [(re.compile(r'<.+ as Into<.+>>::into'), into_via_from)]
+
+MODELS_NORM = [(re.compile(r'BTreeSet::<&?Url>::insert'), set_insert)] + MODELS_NORM      # membership-bit set over the url universe (iteration order is not used through this model)
